@@ -39,7 +39,9 @@ from qiskit_addon_cutting import (
 )
 from qiskit_addon_cutting.cutting_decomposition import partition_circuit_qubits, cut_gates
 from qiskit_addon_cutting.instructions import CutWire, Move
-from qiskit_addon_cutting.qpd import QPDBasis, TwoQubitQPDGate, SingleQubitQPDGate, decompose_qpd_instructions
+from qiskit_addon_cutting.qpd import (QPDBasis, TwoQubitQPDGate, SingleQubitQPDGate, decompose_qpd_instructions,
+                                      generate_qpd_weights)
+from qiskit_addon_cutting.utils.transforms import separate_circuit, _partition_labels_from_circuit, _split_barriers
 from qiskit_addon_cutting.qpd.instructions import BaseQPDGate
 from qiskit_addon_cutting.utils.observable_grouping import ObservableCollection
 from qiskit_addon_cutting.utils.simulation import ExactSampler
@@ -497,7 +499,7 @@ def _params_for(name, rng):
     return [_angle(rng)] if name in ("rzz", "rzx", "ryy", "crx") else []
 
 
-def rand_desc(rng, nq, ngates, p_pre=0.3, p_py=0.2, p_cw=0.0, barriers=True, srcs=None):
+def rand_desc(rng, nq, ngates, p_pre=0.3, p_py=0.2, p_cw=0.0, barriers=True, srcs=None, hist=True, nc=0):
     """2-4 qubits; cx / rzz / swap made natively, some gates appended as Python objects, optional pre-placed
     TwoQubitQPDGate instances (sometimes two gates sharing ONE basis object), CutWire markers, a barrier."""
     srcs = srcs or (SMALL_SRC + BIG_SRC)
@@ -514,11 +516,16 @@ def rand_desc(rng, nq, ngates, p_pre=0.3, p_py=0.2, p_cw=0.0, barriers=True, src
         r = rng.random()
         if r < p_pre:
             if last_pre is not None and rng.random() < 0.3:
-                ops.append(dict(g="qpd_2q", q=[a, b], share=last_pre))
+                # another gate on the same basis object, or (history) the very same gate OBJECT appended again
+                ops.append(dict(g="qpd_2q", q=[a, b], **({"same": last_pre} if hist and rng.random() < 0.4 else {"share": last_pre})))
             else:
                 name = srcs[int(rng.integers(0, len(srcs)))]
                 ops.append(dict(g="qpd_2q", q=[a, b], src=name, p=_params_for(name, rng)))
                 last_pre = len(ops) - 1
+                if hist and rng.random() < 0.35:      # history: a map id was already selected on the pre-placed gate
+                    ops[-1]["bid"] = int(rng.integers(0, 6))
+                if hist and rng.random() < 0.35:      # history: `.definition` of the gate was read (and cached) before the call
+                    ops[-1]["read_def"] = True
         elif r < p_pre + p_py:
             name = ["rzx", "rzz"][int(rng.integers(0, 2))]
             if WITH_UNITARY and rng.random() < 0.5:
@@ -531,6 +538,10 @@ def rand_desc(rng, nq, ngates, p_pre=0.3, p_py=0.2, p_cw=0.0, barriers=True, src
             ops.append(dict(g="cut_wire", q=[int(rng.integers(0, nq))]))
     if barriers and nq >= 2 and rng.random() < 0.2:
         ops.append(dict(g="barrier", q=list(range(nq))))
+    if nc:
+        for _ in range(int(rng.integers(1, 3))):
+            ops.insert(int(rng.integers(0, len(ops) + 1)), dict(g="measure", q=[int(rng.integers(0, nq))], c=[int(rng.integers(0, nc))]))
+        return dict(nq=nq, nc=nc, ops=ops)
     return dict(nq=nq, ops=ops)
 
 
@@ -540,12 +551,21 @@ def build_circuit(d):
     for k, o in enumerate(d["ops"]):
         g, q, p = o["g"], o["q"], o.get("p", [])
         if g == "qpd_2q":
-            if "share" in o:
+            if "same" in o:
+                gate = made[o["same"]]
+            elif "share" in o:
                 gate = TwoQubitQPDGate(made[o["share"]].basis, label="cut_again")
             else:
                 gate = TwoQubitQPDGate.from_instruction(GATE_CLS[o["src"]](*p))
+                if o.get("bid") is not None:
+                    gate.basis_id = o["bid"]
             made[k] = gate
             qc.append(gate, q)
+            if o.get("read_def"):
+                _ = gate.definition
+                _ = [i.operation.definition for i in gate.definition.data if gate.definition is not None]
+        elif g == "measure":
+            qc.measure(q[0], o["c"][0])
         elif g == "cut_wire":
             qc.append(CutWire(), q)
         elif g == "barrier":
@@ -781,20 +801,36 @@ def run_entry(entry, inplace, d, w=None):
         qc = build_circuit(d["circuit"])
         gids = list(d["gate_ids"])
         c = hb.circuit(qc)
-        lit = f"CCutGates {coq(inplace)} {c} {coq(gids)}"
+        lit = f"CCutGates {coq(inplace)} {c} {coq([g % len(qc.data) for g in gids])}"     # negative ids index from the end
         rec, _ = examine([qc, gids], lambda a: cut_gates(a[0], a[1], inplace=inplace), lambda o: [o[0], o[1]], inplace)
         return hb, lit, rec, [qc]
     if entry == "partition_problem":
         qc = build_circuit(d["circuit"])
-        labels = [untag_label(t) for t in d["labels"]]
+        labels = [untag_label(t) for t in d["labels"]] if d.get("labels") is not None else None
         obs = PauliList(d["obs"]) if d.get("obs") else None
         c = hb.circuit(qc)
         p = hb.pauli(obs) if obs is not None else None
-        sides, nl = sides_of(qc, labels)
-        lit = f"CPartition {c} {coq(spans_of(qc, labels))} {coq(sides)} {nl} {copt(p)}"
+        # automatic labels: the connectivity rule of the package (a pure function of the circuit), idle qubits get None
+        eff = labels if labels is not None else _partition_labels_from_circuit(
+            qc, ignore=lambda inst: isinstance(inst.operation, TwoQubitQPDGate))
+        sides, nl = sides_of(qc, eff)
+        lit = f"CPartition {c} {coq(spans_of(qc, eff))} {coq(sides)} {nl} {copt(p)}"
         rec, _ = examine([qc, labels, obs], lambda a: partition_problem(a[0], a[1], a[2]),
                          lambda o: [o.subcircuits, o.bases] + ([o.subobservables] if o.subobservables is not None else []), False)
         return hb, lit, rec, [qc]
+    if entry == "separate":
+        qc = build_circuit(d["circuit"])
+        labels = [untag_label(t) for t in d["labels"]] if d.get("labels") is not None else None
+        c = hb.circuit(qc)
+        if labels is None:
+            tmp = qc.copy()
+            _split_barriers(tmp)
+            eff = _partition_labels_from_circuit(tmp)
+        else:
+            eff = labels
+        sides, nl = sides_of(qc, eff)
+        rec, _ = examine([qc, labels], lambda a: separate_circuit(a[0], a[1]), lambda o: [o.subcircuits, o.qubit_map], False)
+        return hb, f"CSeparate {c} {coq(sides)} {nl}", rec, [qc]
     if entry == "cut_wires":
         qc = build_circuit(d["circuit"])
         c = hb.circuit(qc)
@@ -825,9 +861,25 @@ def run_entry(entry, inplace, d, w=None):
     if entry == "dqi":
         qc = build_circuit(d["circuit"])
         qids, mids = list(d["ids"]), list(d["map_ids"])
+        iids = [[k] for k in qids]
+        if d.get("pairs"):
+            # unseparated circuit of SingleQubitQPDGate pairs: instruction_ids with two elements per decomposition
+            qc = qc.decompose(TwoQubitQPDGate)
+            pos = [k for k, i in enumerate(qc.data) if isinstance(i.operation, SingleQubitQPDGate)]
+            iids = [[pos[2 * j], pos[2 * j + 1]] for j in range(len(pos) // 2)]
+            mids = (mids + [0] * len(iids))[:len(iids)]
+            qids = [k for pr in iids for k in pr]
+            flat_mids = [m for m in mids for _ in (0, 1)]
+        else:
+            flat_mids = mids
+        arg_mids = mids
+        if d.get("map_none"):
+            # map_ids=None: the map ids already selected on the gates are used (all gates carry one in this form)
+            arg_mids = None
+            flat_mids = [qc.data[k].operation.basis_id for k in qids]
         c = hb.circuit(qc)
-        lit = f"CDqi {coq(inplace)} {c} {coq(qids)} {coq(mids)}"
-        rec, _ = examine([qc, [[k] for k in qids], mids],
+        lit = f"CDqi {coq(inplace)} {c} {coq(qids)} {coq(flat_mids)}"
+        rec, _ = examine([qc, iids, arg_mids],
                          lambda a: decompose_qpd_instructions(a[0], a[1], a[2], inplace=inplace), lambda o: [o], inplace)
         return hb, lit, rec, [qc]
     if entry == "generate":
@@ -854,23 +906,53 @@ def run_entry(entry, inplace, d, w=None):
         nmaps = [len(b.maps) for b in bases]
         # exact mode keeps a joint map iff the product of its probabilities is >= 1e-14 (qpd/weights.py; C04's business,
         # monitored below through the number of returned coefficients)
-        samples = [list(t) for t in itertools.product(*[range(n) for n in nmaps])
-                   if float(np.prod([b.probabilities[j] for b, j in zip(bases, t)])) >= 1e-14]
+        if d.get("num_samples"):
+            # finite sampling from numpy's global generator: seeded before every call; the sampled joint map ids are
+            # those of generate_qpd_weights under the same seed (oracle, monitored through the number of coefficients)
+            ns, sd = d["num_samples"], d["np_seed"]
+            np.random.seed(sd)
+            samples = [list(t) for t in generate_qpd_weights(bases, ns).keys()]
+
+            def call(a):
+                np.random.seed(sd)
+                return generate_cutting_experiments(a[0], a[1], ns)
+        else:
+            samples = [list(t) for t in itertools.product(*[range(n) for n in nmaps])
+                       if float(np.prod([b.probabilities[j] for b, j in zip(bases, t)])) >= 1e-14]
+
+            def call(a):
+                return generate_cutting_experiments(a[0], a[1], np.inf)
         lit = f"CGenerate {coq(cl)} {coq(ol)} {coq(samples)} {coq(ng)} {coq(cutidx)}"
-        rec, out1 = examine([circs, sobs], lambda a: generate_cutting_experiments(a[0], a[1], np.inf), lambda o: [o[0], o[1]], False)
+        rec, out1 = examine([circs, sobs], call, lambda o: [o[0], o[1]], False)
         if w is not None:
-            w.contract("O-weights: num_samples=inf yields one coefficient per joint map id of probability >= 1e-14", len(out1[1]) == len(samples))
+            w.contract("O-weights: one coefficient per joint map id (exact: probability >= 1e-14; sampled: as generate_qpd_weights "
+                       "under the same numpy seed)", len(out1[1]) == len(samples))
         return hb, lit, rec, clist
     if entry == "reconstruct":
         qc0 = build_circuit(d["circuit"])
         obs = PauliList(d["obs"])
-        pp = partition_problem(qc0, "AB", obs)
-        exps, coeffs = generate_cutting_experiments(pp.subcircuits, pp.subobservables, np.inf)
-        results = {k: ExactSampler().run(v).result() for k, v in exps.items()}
-        rs = [hb.result(results[k]) for k in results]
+        form = d.get("form", "dict-v1")
+        if form == "plain-v1":
+            # unseparated form: one circuit, a PauliList, one SamplerResult
+            circ, _bases = cut_gates(qc0, two_q_plain_ids(qc0))
+            exps, coeffs = generate_cutting_experiments(circ, obs, np.inf)
+            results = ExactSampler().run(exps).result()
+            sobs = obs
+            rs = [hb.result(results)]
+            ol = [hb.pauli(obs)]
+        else:
+            pp = partition_problem(qc0, "AB", obs)
+            exps, coeffs = generate_cutting_experiments(pp.subcircuits, pp.subobservables, np.inf)
+            if form == "dict-v2":
+                from qiskit.primitives import StatevectorSampler
+                results = {k: StatevectorSampler(seed=7).run(v, shots=8).result() for k, v in exps.items()}
+            else:
+                results = {k: ExactSampler().run(v).result() for k, v in exps.items()}
+            sobs = pp.subobservables
+            rs = [hb.result(results[k]) for k in results]
+            ol = [hb.pauli(sobs[k]) for k in results]
         co = hb.plain_list(coeffs)
-        ol = [hb.pauli(pp.subobservables[k]) for k in results]
-        rec, _ = examine([results, coeffs, pp.subobservables], lambda a: reconstruct_expectation_values(a[0], a[1], a[2]),
+        rec, _ = examine([results, coeffs, sobs], lambda a: reconstruct_expectation_values(a[0], a[1], a[2]),
                          lambda o: [o], False)
         return hb, f"CReconstruct {coq(rs)} {co} {coq(ol)}", rec, []
     raise ValueError(entry)
@@ -982,7 +1064,7 @@ def qpd_positions(cd):
     out = []
     for k, o in enumerate(cd["ops"]):
         if o["g"] == "qpd_2q":
-            src = o["src"] if "src" in o else cd["ops"][o["share"]]["src"]
+            src = o["src"] if "src" in o else cd["ops"][o["share"] if "share" in o else o["same"]]["src"]
             out.append((k, nm[src]))
     return out
 
@@ -995,10 +1077,10 @@ def generate(rng, tier, outdir):
     global PROBE_REF
     PROBE_REF = probe()   # pristine reference for "later calls on new inputs", taken before any destructive edit
     quick = tier == "quick"
-    N = dict(pcq=100, cut_gates=100, partition=120, cut_wires=100, expand=40, find_cuts=50, generate=50, dqi=70, reconstruct=10,
-             inplace=90) if quick else \
+    N = dict(pcq=80, cut_gates=80, partition=110, cut_wires=80, expand=30, find_cuts=40, generate=44, dqi=70, reconstruct=12,
+             inplace=75, separate=40) if quick else \
         dict(pcq=400, cut_gates=400, partition=500, cut_wires=400, expand=150, find_cuts=200, generate=200, dqi=300,
-             reconstruct=40, inplace=300)
+             reconstruct=48, inplace=300, separate=250)
     w.notes.append("known classes routed to the current-behaviour checker: " + (",".join(sorted(known)) or "none"))
 
     def tl(labels):
@@ -1014,18 +1096,32 @@ def generate(rng, tier, outdir):
         cd = rand_desc(rng, nq, int(rng.integers(1, 7)), p_pre=0.3 if it % 3 else 0.0, barriers=False)
         ids = safe_ids(cd)
         k = int(rng.integers(0, min(3, len(ids)) + 1))
-        g.case("cut_gates", dict(circuit=cd, gate_ids=[int(x) for x in rng.permutation(ids)[:k]] if ids else []))
+        gids = [int(x) for x in rng.permutation(ids)[:k]] if ids else []
+        if it % 4 == 0:      # negative indices (from the end)
+            gids = [x - len(cd["ops"]) if rng.random() < 0.5 else x for x in gids]
+        g.case("cut_gates", dict(circuit=cd, gate_ids=gids))
 
     for it in range(N["partition"]):
         nq = int(rng.integers(2, 5))
         cd = rand_desc(rng, nq, int(rng.integers(1, 7)), p_pre=0.35 if it % 3 else 0.0)
-        g.case("partition_problem", dict(circuit=cd, labels=tl(rand_labels(rng, nq)),
-                                         obs=rand_obs(rng, nq) if rng.random() < 0.6 else None))
+        auto = (it % 4 == 3)       # automatic labels (partition_labels=None); idle qubits then get the label None
+        g.case("partition_problem", dict(circuit=cd, labels=None if auto else tl(rand_labels(rng, nq)),
+                                         obs=(["I" * nq] if auto else rand_obs(rng, nq)) if rng.random() < 0.6 else None))
+
+    # separate_circuit (utils.transforms): explicit and automatic labels, wide barriers.  Pre-placed QPD gates only with
+    # C16_SEPARATE_QPD=1: circuit.copy() shares their basis here exactly as in F6, but at a call site that is not listed
+    for it in range(N["separate"]):
+        nq = int(rng.integers(2, 5))
+        cd = rand_desc(rng, nq, int(rng.integers(1, 7)), p_pre=0.3 if os.environ.get("C16_SEPARATE_QPD") == "1" else 0.0, p_py=0.3)
+        if it % 2 == 0:
+            cd["ops"].insert(int(rng.integers(0, len(cd["ops"]) + 1)), dict(g="barrier", q=list(range(nq))))
+        # labels that keep every multi-qubit instruction inside one partition: one label, or automatic
+        g.case("separate", dict(circuit=cd, labels=None if it % 3 else tl([LABEL_POOL[int(rng.integers(0, len(LABEL_POOL)))]] * nq)))
 
     for it in range(N["cut_wires"]):
         nq = int(rng.integers(2, 5))
         cd = rand_desc(rng, nq, int(rng.integers(1, 6)), p_pre=0.25 if it % 3 else 0.0, p_py=0.25 if it % 2 else 0.0,
-                       p_cw=0.35, barriers=False)
+                       p_cw=0.35, barriers=False, nc=(int(rng.integers(1, 3)) if it % 4 == 1 else 0))
         g.case("cut_wires", dict(circuit=cd))
 
     for it in range(N["expand"]):
@@ -1047,7 +1143,16 @@ def generate(rng, tier, outdir):
         if not qids and it % 4:
             continue
         mids = [int(rng.integers(0, n)) for _, n in qp]
-        g.case("dqi", dict(circuit=cd, ids=qids, map_ids=mids))
+        du = dict(circuit=cd, ids=qids, map_ids=mids)
+        if it % 5 == 1 and qids:        # map_ids=None: needs a selected map on every gate
+            for k in qids:
+                o = cd["ops"][k]
+                if "src" in o and o.get("bid") is None:
+                    o["bid"] = int(rng.integers(0, 6))
+            du["map_none"] = True
+        elif it % 5 == 2 and qids and not any("same" in cd["ops"][k] for k in qids):     # pairs of SingleQubitQPDGates
+            du["pairs"] = True
+        g.case("dqi", du)
 
     for it in range(N["generate"]):
         nq = int(rng.integers(2, 4))
@@ -1064,14 +1169,17 @@ def generate(rng, tier, outdir):
             ops.append(dict(g=name, q=[a, b], p=_params_for(name, rng), py=name in ("rzx", "ryy", "crx")))
             if rng.random() < 0.5:
                 ops.append(dict(g="rx", q=[a], p=[0.25]))
-        g.case("generate", dict(circuit=dict(nq=nq, ops=ops), form=form, obs=rand_obs(rng, nq),
-                                labels=tl(["A" if q % 2 == 0 else "B" for q in range(nq)])))
+        du = dict(circuit=dict(nq=nq, ops=ops), form=form, obs=rand_obs(rng, nq),
+                  labels=tl(["A" if q % 2 == 0 else "B" for q in range(nq)]))
+        if it % 3 == 1:       # finite sampling (numpy's global generator, seeded before every call)
+            du.update(num_samples=int(rng.integers(1, 30)), np_seed=int(rng.integers(0, 10000)))
+        g.case("generate", du)
         w.count("generate.form", form)
 
     for it in range(N["reconstruct"]):
         name = SMALL_SRC[int(rng.integers(0, 3))]
         ops = [dict(g="h", q=[0]), dict(g=name, q=[0, 1], p=_params_for(name, rng))]
-        g.case("reconstruct", dict(circuit=dict(nq=2, ops=ops), obs=rand_obs(rng, 2)))
+        g.case("reconstruct", dict(circuit=dict(nq=2, ops=ops), obs=rand_obs(rng, 2), form=["dict-v1", "plain-v1", "dict-v2"][it % 3]))
 
     for it in range(N["inplace"]):
         nq = int(rng.integers(2, 5))
@@ -1122,8 +1230,12 @@ def generate(rng, tier, outdir):
     return w.finish(
         rule="random circuits on 2-4 qubits (h/x/s/rx, cx/rzz/swap made natively, rzx/rzz appended as Python gate objects, "
              "optional pre-placed TwoQubitQPDGate instances from cx/rzz/cz/swap/rzx/ryy/crx incl. two gates sharing one basis, "
-             "CutWire markers, barriers); explicit partition labels from a pool of hashables; random PauliLists; exact "
-             "(num_samples=inf) generation, both call forms; ExactSampler results for reconstruction; every call also in its "
+             "CutWire markers, barriers, circuit metadata / global phase; histories: a map id already selected on a pre-placed gate, "
+             "its definition already read, the same gate object appended twice; classical registers + measure for cut_wires); "
+             "explicit labels from a pool of hashables and automatic labels (incl. idle qubits -> None); negative gate ids; "
+             "separate_circuit with wide barriers; random PauliLists; exact (num_samples=inf) and seeded finite generation, both "
+             "call forms; decompose_qpd_instructions with explicit map ids, map_ids=None and two-element instruction ids; "
+             "reconstruction from SamplerResult (dict and plain form) and PrimitiveResult; every call also in its "
              "in-place form where one exists. UnitaryGate instructions in INPUT circuits are excluded (Qiskit's own copy shares "
              "their matrix; reported as an observation). distinct = distinct Coq case literal; non-trivial = heap with > 2 objects",
         extra=dict(extra=dict(known_classes=sorted(known))),
